@@ -643,7 +643,7 @@ def _shapes(ctx, reqs, pending, spec_reqs, spec_pending, only_idx=None):
     from pydicom.sr.codedict import codes
     import highdicom as hd
     pairs = [(a, b) for a in SHAPES for b in SHAPES]
-    n_tri = ctx.n(60, 900)
+    n_tri = ctx.n(40, 900)
     idxs = range(len(pairs) + n_tri) if only_idx is None else [only_idx]
     for idx in idxs:
         r = ctx.rng('shapes', idx)
@@ -813,9 +813,10 @@ def _malformed(ctx, reqs3, pending3, only_idx=None):
     from gen import srreports
     from pydicom.sr.codedict import codes
     combos = [(sh, m, pos) for sh in ROI_SHAPES for m in MALFORMED for pos in (0, 1)]
-    n = len(combos) if ctx.tier != 'quick' else ctx.n(48, len(combos))
-    idxs = ([only_idx] if only_idx is not None else
-            (range(len(combos)) if n >= len(combos) else sorted(ctx.rng('malformed-pick', 0).sample(range(len(combos)), n))))
+    n = len(combos)
+    # quick: every (shape, malformation), the position alternating; thorough: both positions
+    idxs = [only_idx] if only_idx is not None else \
+        [i for i in range(len(combos)) if ctx.tier != 'quick' or ctx.search_mode or (i // 2 + i // 12 + ctx.seed) % 2 == i % 2]
     for idx in idxs:
         shape, what, pos = combos[idx]
         r = ctx.rng('malformed', idx)
@@ -854,7 +855,12 @@ def _malformed(ctx, reqs3, pending3, only_idx=None):
         for method in ('planar', 'volumetric', 'image'):
             fl = [{nm: None for nm in FILTERS[method]}]
             for nm in FILTERS[method]:
-                vals = pools[nm] if nm in ('graphic_type', 'reference_type') else pools[nm][:3] + pools[nm][-1:]
+                if nm in ('finding_type', 'finding_site'):
+                    vals = pools[nm][:1]        # these filters read nothing a malformation touches
+                elif nm in ('graphic_type', 'reference_type'):
+                    vals = pools[nm]
+                else:
+                    vals = pools[nm][:3] + pools[nm][-1:]
                 fl += [{m: (v if m == nm else None) for m in FILTERS[method]} for v in vals]
             for f in fl:
                 res = _call(getattr(rep, METHODS[method]), **_to_args(f))
@@ -877,8 +883,10 @@ def _malformed(ctx, reqs3, pending3, only_idx=None):
                 reqs3.append(('queryItems', {'method': method, 'groups': model_groups,
                                              'filters': {k: (list(v) if isinstance(v, tuple) else v) for k, v in f.items()}}))
                 pending3.append((case, ('ok', got) if ok else ('err', res[1])))
-    if only_idx is None and n >= len(combos):
-        ctx.exhaustive.append(f'all {len(combos)} (ROI group shape x malformation x position) combinations, every value of every single filter')
+    if only_idx is None:
+        ctx.exhaustive.append(f'all {len(ROI_SHAPES) * len(MALFORMED)} (ROI group shape x malformation) combinations'
+                              + (' x both positions' if len(idxs) == len(combos) else ', position alternating')
+                              + ', every graphic type / reference type and 4 values of every UID filter')
 
 
 def _helpers(ctx, reqs2, pending2):
@@ -922,7 +930,7 @@ def run(ctx):
     reqs2, pending2 = [], []
     spec_reqs, spec_pending = [], []
     _helpers(ctx, reqs2, pending2)
-    for idx in range(ctx.n(22, 250)):
+    for idx in range(ctx.n(20, 250)):
         res = _call(_report_case, ctx, idx)
         if res[0] != 'ok':
             ctx.fail({'stream': 'report', 'seed': ctx.seed, 'idx': idx}, f'a valid report could not be constructed: {res[2]}',
